@@ -103,7 +103,12 @@ func (v *VMap) validate(prefix string, tv reflect.Value) *VMap {
 			if fn == nil {
 				switch validKey {
 				case Required:
-					if !val.IsZero() { // 验证必填
+					isEmpty := val.IsZero()
+					switch val.Kind() { // 集合类型长度为 0 也为空
+					case reflect.Slice, reflect.Array, reflect.Map:
+						isEmpty = val.Len() == 0
+					}
+					if !isEmpty { // 验证必填
 						continue
 					}
 					if cusMsg != "" {
